@@ -241,6 +241,31 @@ def run(rep, tier):
     if not mine:
         rep.ok('R11.5', 'acyclic', 'no cycle through T(USCXMLInvoker::run), USCXMLInvoker::_mutex or child/parent session locks (%d edges)' % len(c.lo.edges))
 
+    # ---- R11.8 an exited state loses its invocation also when it is re-entered before the macrostep ends
+    rep.rule('R11.8', 'cancelled exactly once when the state is exited: a state that leaves the configuration is un-invoked or at least removed from the set of invoked states in the exit phase; deciding at macrostep end from "invoked and not in the configuration" misses a state that was exited and re-entered in between')
+    for eq in ENGINES:
+        f8 = fb.fn(eq)
+        eng8 = eq.split('::')[1]
+        # the exit phase: the loop (or straight code) that removes states from the configuration
+        cfg_names = ('_configuration',)
+        removals = [n for n in f8.walk() if (n['k'] == 'CXXMemberCallExpr' and n.get('callee', {}).get('q', '').split('::')[-1] == 'erase' and n['c'][0].get('c') and any(
+            x['k'] == 'MemberExpr' and x['ref'].get('name') in cfg_names for x in sub(n['c'][0]['c'][0]))) or (
+            n['k'] in ('CXXOperatorCallExpr', 'BinaryOperator') and n.get('op') == '=' and any(m[0] == 'BIT_CLEAR' for m in (n.get('mac') or [])) and any(
+            x['k'] == 'MemberExpr' and x['ref'].get('name') in cfg_names for x in sub(n)))]
+        if not removals:
+            raise AnalysisBroken('%s: no removal from the configuration found' % eq)
+        ok8 = False
+        for r_ in removals:
+            lp = next((a_ for a_ in f8.ancestors(r_) if a_['k'] in ('ForStmt', 'CXXForRangeStmt', 'WhileStmt', 'DoStmt')), None)
+            scope = lp if lp is not None else f8.parent(r_)
+            if scope is None:
+                continue
+            if any(x.get('callee', {}).get('q', '') == 'uscxml::MicroStepCallbacks::uninvoke' for x in sub(scope)) or any(
+                    x['k'] == 'MemberExpr' and x['ref'].get('name') == '_invocations' for x in sub(scope)):
+                ok8 = True
+        rep.check(ok8, 'R11.8', '%s|exit phase' % eng8, locstr(removals[0]), 'the exit phase of %s %s' % (eng8, 'touches the invocations of the states it exits' if ok8 else
+                  'does NOT touch _invocations: a state exited and re-entered within one macrostep (transition targeting its own source) keeps its old invocation, which is neither cancelled nor started again'))
+
     # ---- R11.7
     from .C07 import call_granularity
     call_granularity(rep, fb, 'R11.7', 'uscxml::MicroStepCallbacks::invoke', 'invocations of the state',
